@@ -359,6 +359,25 @@ def run(ctx, R, tier):
     okp = bool(stores_c) and not any(mcfg.path_exists(mcfg.nodes_for(st), lambda n: n in add_nodes) for st in stores_c)
     R.check(okp, "C02-R3", "metadata-cache|published-after-filled", "the member sets are stored in the cache only after the scan that fills them", m.loc(stores_c[0]) if stores_c else m.loc(),
             "the cache entry is published before the scan has filled it: a second client (or a fault mid-scan) gets a truncated member list while the daemon serves everything")
+    # the cache is keyed by the class the object stands for - which the two helpers work out THEMSELVES (a registered class is its own key, an instance is keyed by its
+    # class): every caller hands them the registered object as it was looked up. A caller that pre-computes `type(x)` / `x.__class__` asks about the metaclass when a
+    # class is registered: the reset (or the listing) silently addresses another cache entry, and clients keep being told the old member list
+    helper_calls = []
+    for g in p.functions.values():
+        if g.module.name != "Pyro5.server" or isinstance(g.node, ast.Lambda) or g.name in ("_get_exposed_members", "_reset_exposed_members"):
+            continue
+        for c in walk_no_nested(g.node):
+            if isinstance(c, ast.Call) and isinstance(c.func, ast.Name) and c.func.id in ("_get_exposed_members", "_reset_exposed_members") and c.args:
+                helper_calls.append((g, c))
+    if len(helper_calls) < 3:
+        raise AnalysisError("fewer callers of the member-list helpers than expected (%d)" % len(helper_calls))
+    for g, c in helper_calls:
+        a = c.args[0]
+        precomputed = (isinstance(a, ast.Call) and isinstance(a.func, ast.Name) and a.func.id == "type") or (isinstance(a, ast.Attribute) and a.attr == "__class__")
+        R.check(not precomputed, "C02-R3", "metadata-cache|%s-asks-about-the-registered-object-itself" % g.name, "the member-list helper is handed the registered object as looked up "
+                "(it derives the class key itself)", g.loc(c),
+                "`%s` hands the helper `%s` instead of the registered object: for a registered CLASS that is its metaclass - the cache entry that is reset or read is not the "
+                "one the handshake answers from, so after resetMetadataCache() new clients still get the stale list (advertised differs from served)" % (unparse(c, 70), unparse(a, 40)))
     pm = ctx.fn("Pyro5.client.Proxy.__processMetadata")
     pst = [(st, t) for st, t, k in stores_in(pm.node) if k == "assign" and isinstance(t, ast.Attribute) and t.attr in ("_pyroMethods", "_pyroAttrs", "_pyroOneway")]
     okc2 = len(pst) == 3 and all(isinstance(st.value, ast.Call) and isinstance(st.value.func, ast.Name) and st.value.func.id in ("set", "frozenset") for st, t in pst)
